@@ -41,8 +41,11 @@ def tree_id():
         return "unknown"
 
 
-def exec_case(mod, case):
-    """Pure function (case, code) -> result."""
+def exec_case(mod, case, fresh=False):
+    """Pure function (case, code) -> result. fresh=True: helper interpreters (C04, C19) are restarted first."""
+    if fresh and getattr(mod, "USES_SERVERS", False):
+        from . import restore_server
+        restore_server.reset_servers()
     seams.install()
     seams.reset_shared_defaults()
     ctx = kernel.set_ctx(kernel.Ctx())
@@ -157,15 +160,17 @@ def minimise(mod, case, cls, max_exec=400, tries=1):
     def fails(c):
         for _ in range(tries):
             try:
-                r = exec_case(mod, c)
+                r = exec_case(mod, c, fresh=True)
             except Exception:
                 return False
             if any(v["cls"] == cls for v in r["violations"]):
                 return True
         return False
+    if not fails(case):
+        raise kernel.HarnessError("minimised case no longer fails")     # not even the original recurs (fresh helpers)
     small, used = shrink.shrink(case, fails, mod, max_exec)
     for _ in range(max(1, tries * 3)):
-        r = exec_case(mod, small)
+        r = exec_case(mod, small, fresh=True)
         v = next((v for v in r["violations"] if v["cls"] == cls), None)
         if v is not None:
             return small, v, r["digest"], used
@@ -190,7 +195,7 @@ def replay(path):
     attempts = 40 if doc.get("intermittent") else 1
     other = None
     for attempt in range(attempts):
-        res = exec_case(mod, doc)
+        res = exec_case(mod, doc, fresh=True)
         hit = next((v for v in res["violations"] if v["cls"] == want), None)
         if hit is not None:
             break
